@@ -1,0 +1,25 @@
+//go:build verif
+
+// Verification hooks: run the unexported command body with an injected client.
+// Compiled only with `-tags verif`; add-only, no existing line is changed.
+package pause
+
+import (
+	"k8s.io/cli-runtime/pkg/genericclioptions"
+	"sigs.k8s.io/controller-runtime/pkg/client"
+)
+
+// VerifRun runs the body of `kubectl-eds pause-rolling-update|unpause-rolling-update`.
+func VerifRun(c client.Client, streams genericclioptions.IOStreams, namespace, name string, pause bool) error {
+	want := unpaused
+	if pause {
+		want = paused
+	}
+	o := newPauseOptions(streams, want)
+	o.client = c
+	o.userNamespace = namespace
+	o.userExtendedDaemonSetName = name
+	o.args = []string{name}
+
+	return o.run()
+}
